@@ -72,6 +72,18 @@ func VerifC11_G4_escape() {
 	}
 }
 
+// ... and on longer paths assembled from the pieces that matter (a harmless-looking head, a climb, a tail)
+func VerifC11_G4_escape_structured() {
+	head := []string{"", "./", "a/", "a/../", "a/./", "./a/../"}[sym.Choice("head", 6)]
+	climb := []string{"", "../", "../../"}[sym.Choice("climb", 3)]
+	tail := sym.StringNAlpha("tail", 2, "a./")
+	p := head + climb + tail
+	sym.Assume(p != "")
+	got := pathTriesToEscape(p)
+	sym.Assert(got == refEscapes(p), "C11.G4.pathTriesToEscape-is-lexical-escape")
+	sym.Reach("C11.G4.escape.structured")
+}
+
 func VerifC11_G4_within_workspace() {
 	config.Global.WorkspaceRoot = "/w"
 	pkg := []string{"", "a", "a/b"}[sym.Choice("pkg", 3)]
